@@ -55,6 +55,120 @@ theorem cholesky_sound (A L : Matrix ℝ) (h : cholesky A = some L) :
     have := congrFun (congrFun hsym i) j
     simpa [Matrix.transpose_apply] using this
 
+/-- **Completeness of Cholesky (explicit factor), all sizes.**  If the square real input is
+    `M·Mᵀ` for a lower-triangular `M` with positive diagonal, the model is present and returns
+    exactly `M` (in particular the Cholesky factor is unique). -/
+theorem cholesky_complete (A : Matrix ℝ) (hsq : A.rows = A.columns)
+    (M : _root_.Matrix (Fin A.rows) (Fin A.rows) ℝ) (hlow : ∀ i j, i < j → M i j = 0)
+    (hpos : ∀ i, 0 < M i i) (hA : toMat A.rows A.rows A = M * M.transpose) :
+    ∃ L, cholesky A = some L ∧ Shaped A.rows A.rows L ∧ toMat A.rows A.rows L = M := by
+  -- the factor as a table over ℕ
+  let m : ℕ → ℕ → ℝ := fun a b => if h : a < A.rows ∧ b < A.rows then M ⟨a, h.1⟩ ⟨b, h.2⟩ else 0
+  have hm : ∀ (a b : Fin A.rows), m a b = M a b := by
+    intro a b; simp only [m]; rw [dif_pos ⟨a.isLt, b.isLt⟩]
+  have hlow' : ∀ a b, a < b → m a b = 0 := by
+    intro a b hab
+    simp only [m]
+    split
+    · next h => exact hlow ⟨a, h.1⟩ ⟨b, h.2⟩ hab
+    · rfl
+  have hpos' : ∀ a, a < A.rows → 0 < m a a := by
+    intro a ha
+    have := hm ⟨a, ha⟩ ⟨a, ha⟩
+    simp only [] at this
+    rw [this]; exact hpos _
+  have hA' : ∀ a b, a < A.rows → b ≤ a → get A a b = ∑ k ∈ range A.rows, m a k * m b k := by
+    intro a b ha hba
+    have hb : b < A.rows := by omega
+    have h1 := congrFun (congrFun hA ⟨a, ha⟩) ⟨b, hb⟩
+    rw [toMat_apply, Matrix.mul_apply] at h1
+    simp only [Matrix.transpose_apply] at h1
+    rw [h1, ← Fin.sum_univ_eq_sum_range (fun k => m a k * m b k) A.rows]
+    apply Finset.sum_congr rfl
+    intro k _
+    rw [← hm ⟨a, ha⟩ k, ← hm ⟨b, hb⟩ k]
+  obtain ⟨L, h1, h2, h3⟩ := cholesky_complete_aux hsq hlow' hpos' hA'
+  refine ⟨L, h1, h2, ?_⟩
+  ext i j
+  rw [toMat_apply, h3 i j i.isLt j.isLt, hm]
+
+/-- **Whatever Cholesky accepts is positive definite**: if the model returns a factor for a
+    symmetric real `A`, then `A` is positive definite (Mathlib's `Matrix.PosDef`). -/
+theorem cholesky_posDef_of_some (A L : Matrix ℝ) (h : cholesky A = some L)
+    (hsym : (toMat A.rows A.rows A).transpose = toMat A.rows A.rows A) :
+    (toMat A.rows A.rows A).PosDef := by
+  obtain ⟨_, _, hlow, hpos, _, hfull⟩ := cholesky_sound A L h
+  rw [← hfull hsym]
+  exact posDef_of_lower _ hlow hpos
+
+/-- **Inputs that are not positive definite yield absence**: for a symmetric real input that
+    is not positive definite (indefinite, semidefinite, …) the model returns `none` — never a
+    wrong factor, and the model has no panicking path. -/
+theorem cholesky_none_of_not_posdef (A : Matrix ℝ)
+    (hsym : (toMat A.rows A.rows A).transpose = toMat A.rows A.rows A)
+    (hnot : ¬ (toMat A.rows A.rows A).PosDef) : cholesky A = none := by
+  cases h : cholesky A with
+  | none => rfl
+  | some L => exact absurd (cholesky_posDef_of_some A L h hsym) hnot
+
+/-- **Cholesky on every symmetric positive definite input** (the property's first sentence, all
+    sizes): for a square real `A` whose matrix is positive definite (Mathlib's `Matrix.PosDef`,
+    which includes symmetry) the model is present, and its factor is lower triangular with
+    positive diagonal and reproduces the input as `L·Lᵀ`.  The proof shows that every pivot is
+    positive: the leading block is `T·diag(1,…,1,pivot)·Tᵀ` for an invertible triangular `T`. -/
+theorem cholesky_spd (A : Matrix ℝ) (hsq : A.rows = A.columns)
+    (hPD : (toMat A.rows A.rows A).PosDef) :
+    ∃ L, cholesky A = some L ∧ Shaped A.rows A.rows L ∧
+      (∀ i j : Fin A.rows, i < j → toMat A.rows A.rows L i j = 0) ∧
+      (∀ i : Fin A.rows, 0 < toMat A.rows A.rows L i i) ∧
+      toMat A.rows A.rows L * (toMat A.rows A.rows L).transpose = toMat A.rows A.rows A := by
+  obtain ⟨L, hL⟩ := cholesky_present_aux hsq hPD
+  obtain ⟨_, h2, h3, h4, _, h6⟩ := cholesky_sound A L hL
+  have hsym : (toMat A.rows A.rows A).transpose = toMat A.rows A.rows A := by
+    have := hPD.1
+    rwa [Matrix.IsHermitian, Matrix.conjTranspose_eq_transpose_of_trivial] at this
+  exact ⟨L, hL, h2, h3, h4, h6 hsym⟩
+
+/-- Presence ⇔ positive definiteness, for symmetric square real inputs. -/
+theorem cholesky_some_iff_posDef (A : Matrix ℝ) (hsq : A.rows = A.columns)
+    (hsym : (toMat A.rows A.rows A).transpose = toMat A.rows A.rows A) :
+    (∃ L, cholesky A = some L) ↔ (toMat A.rows A.rows A).PosDef :=
+  ⟨fun ⟨L, h⟩ => cholesky_posDef_of_some A L h hsym,
+   fun h => (cholesky_present_aux hsq h)⟩
+
+/-- Non-vacuity of the positive-definiteness hypothesis: `[[4,2],[2,5]]` is positive definite. -/
+example : (toMat 2 2 (⟨[4, 2, 2, 5], 2, 2⟩ : Matrix ℝ)).PosDef := by
+  have h : toMat 2 2 (⟨[4, 2, 2, 5], 2, 2⟩ : Matrix ℝ)
+      = (!![2, 0; 1, 2] : _root_.Matrix (Fin 2) (Fin 2) ℝ) * (!![2, 0; 1, 2]).transpose := by
+    ext i j
+    fin_cases i <;> fin_cases j <;>
+      simp [toMat, Decomp.get, EasyMl.Matrix.getIndex, Matrix.mul_apply, Fin.sum_univ_two] <;> norm_num
+  rw [h]
+  apply posDef_of_lower
+  · intro i j hij; fin_cases i <;> fin_cases j <;> simp_all
+  · intro i; fin_cases i <;> simp
+
+/-- Non-vacuity of `cholesky_complete`: `[[4,2],[2,5]] = M·Mᵀ` for `M = [[2,0],[1,2]]`. -/
+example : ∃ M : _root_.Matrix (Fin 2) (Fin 2) ℝ, (∀ i j, i < j → M i j = 0) ∧ (∀ i, 0 < M i i) ∧
+    toMat 2 2 (⟨[4, 2, 2, 5], 2, 2⟩ : Matrix ℝ) = M * M.transpose := by
+  refine ⟨!![2, 0; 1, 2], ?_, ?_, ?_⟩
+  · intro i j hij; fin_cases i <;> fin_cases j <;> simp_all
+  · intro i; fin_cases i <;> simp
+  · ext i j
+    fin_cases i <;> fin_cases j <;>
+      simp [toMat, Decomp.get, EasyMl.Matrix.getIndex, Matrix.mul_apply, Fin.sum_univ_two] <;> norm_num
+
+/-- Non-vacuity of `cholesky_none_of_not_posdef`: the symmetric `[[1,2],[2,0]]` has a zero on its
+    diagonal, so it is not positive definite. -/
+example : (toMat 2 2 (⟨[1, 2, 2, 0], 2, 2⟩ : Matrix ℝ)).transpose = toMat 2 2 ⟨[1, 2, 2, 0], 2, 2⟩ ∧
+    ¬ (toMat 2 2 (⟨[1, 2, 2, 0], 2, 2⟩ : Matrix ℝ)).PosDef := by
+  constructor
+  · ext i j
+    fin_cases i <;> fin_cases j <;> simp [toMat, Decomp.get, EasyMl.Matrix.getIndex]
+  · intro h
+    have := h.diag_pos (i := 1)
+    simp [toMat, Decomp.get, EasyMl.Matrix.getIndex] at this
+
 theorem sqrt_four : Real.sqrt 4 = 2 := by
   rw [show (4 : ℝ) = 2 * 2 by norm_num]; exact Real.sqrt_mul_self (by norm_num)
 
@@ -182,6 +296,24 @@ example : ldlt (⟨[2, 4, 4, 3], 2, 2⟩ : Matrix ℚ) = some (⟨[1, 0, 2, 1], 
 
 example : ∀ a b : ℚ, NumOrd.eq a b = true ↔ a = b := fun a b => by simp [NumOrd.eq]
 
+/-- **LDLᵀ on every symmetric positive definite input** (all sizes): the model is present, `L` is
+    unit lower triangular, `D` is diagonal and `L·D·Lᵀ = A`. -/
+theorem ldlt_spd (A : Matrix ℝ) (hsq : A.rows = A.columns)
+    (hPD : (toMat A.rows A.rows A).PosDef) :
+    ∃ L D, ldlt A = some (L, D) ∧ Shaped A.rows A.rows L ∧ Shaped A.rows A.rows D ∧
+      (∀ i j : Fin A.rows, i < j → toMat A.rows A.rows L i j = 0) ∧
+      (∀ i : Fin A.rows, toMat A.rows A.rows L i i = 1) ∧
+      (∀ i j : Fin A.rows, i ≠ j → toMat A.rows A.rows D i j = 0) ∧
+      toMat A.rows A.rows L * toMat A.rows A.rows D * (toMat A.rows A.rows L).transpose
+        = toMat A.rows A.rows A := by
+  obtain ⟨L, D, h⟩ := ldlt_present_aux hsq hPD
+  obtain ⟨_, h2, h3, h4, h5, h6, _, _, h9⟩ :=
+    ldlt_sound (fun a b => RealModel.eq_eq a b) A L D h
+  have hsym : (toMat A.rows A.rows A).transpose = toMat A.rows A.rows A := by
+    have := hPD.1
+    rwa [Matrix.IsHermitian, Matrix.conjTranspose_eq_transpose_of_trivial] at this
+  exact ⟨L, D, h, h2, h3, h4, h5, h6, h9 hsym⟩
+
 /-- **Absence of LDLᵀ ⇔ non-square input or a zero pivot.**  The model is absent exactly when
     the input is not square or when, with the columns before `j` computed, the `j`-th pivot
     `A[j,j] − Σ_{k<j} L[j,k]²·D[k,k]` is zero. -/
@@ -247,6 +379,49 @@ theorem qr_product (A Q R : Matrix ℝ) (h : qr A = some (Q, R)) :
   obtain ⟨h1, h2, h3, h4, h5⟩ := qr_real h
   exact ⟨h1, h2, h3, h4, h5, mul_eq_one_comm.mp h5⟩
 
+/-- **`R` is upper triangular**, all columns, every `M ≥ N` shape: each reflection maps the
+    trailing part `x` of its column to `∓‖x‖·e₀` (`H·x = x − u` because `u·u = 2·u·x`) and leaves
+    the zeros of the earlier columns in place. -/
+theorem qr_upper (A Q R : Matrix ℝ) (h : qr A = some (Q, R)) :
+    ∀ (i : Fin A.rows) (j : Fin A.columns), (j : ℕ) < (i : ℕ) → toMat A.rows A.columns R i j = 0 := by
+  have hw : A.columns ≤ A.rows := (qr_real h).1
+  have hup := qrLoop_upper A hw
+  unfold qr at h
+  rw [if_neg (by omega)] at h
+  simp only [Option.some.injEq, Prod.mk.injEq] at h
+  rw [h.2] at hup
+  intro i j hji
+  exact hup.2 i j i.isLt j.isLt (by have := i.isLt; omega) hji
+
+/-- Non-vacuity: the model factors the 2×1 input `[3, 4]ᵀ` over `Fp` (present, `Q` is 2×2). -/
+example : ∃ Q R, qr (⟨[⟨3⟩, ⟨4⟩], 2, 1⟩ : Matrix Fp) = some (Q, R) ∧ Q.rows = 2 ∧ Q.columns = 2 :=
+  ⟨_, _, rfl, rfl, rfl⟩
+
+/-- **On the property's domain (linearly independent columns) no reflection divides by zero.**
+    `qrState A c` is the state of the loop after `c` iterations (`qrLoop A` is
+    `qrState A (min (M−1) N)` by definition).  If the columns of the real `M × N` input are
+    linearly independent (`mulVec` injective), the column the `c`-th reflection is built from is
+    non-zero for every iteration `c`, hence `‖u‖ > 0` and the normalisation `u / ‖u‖` is a genuine
+    division.  So on these inputs `qr_product` / `qr_upper` do not rest on Lean's `x / 0 = 0`. -/
+theorem qr_no_zero_division (A : Matrix ℝ)
+    (hinj : Function.Injective (toMat A.rows A.columns A).mulVec) (c : ℕ)
+    (hc : c < min (A.rows - 1) A.columns) :
+    0 < Real.sqrt (sumSq (householderU
+      ((List.range (A.rows - c)).map fun t => get (qrState A c).2 (c + t) c))) := by
+  obtain ⟨k, hk⟩ := qr_column_ne_zero A hinj c (by omega) (by omega)
+  exact householder_defined _ k hk
+
+example : qrLoop (⟨[3, 4], 2, 1⟩ : Matrix ℝ) = qrState ⟨[3, 4], 2, 1⟩ (min (2 - 1) 1) := rfl
+
+/-- Non-vacuity: the single column `[3, 4]ᵀ` is linearly independent. -/
+example : Function.Injective (toMat 2 1 (⟨[3, 4], 2, 1⟩ : Matrix ℝ)).mulVec := by
+  intro y z h
+  have h0 := congrFun h 0
+  simp [Matrix.mulVec, dotProduct, toMat, Decomp.get, EasyMl.Matrix.getIndex] at h0
+  funext i
+  fin_cases i
+  simpa using h0
+
 /-- **QR is absent exactly for wide inputs** (`N > M`); in particular it is present for `1 × 1`
     and `M × 1` inputs.  (This is the repaired control flow; see `qr_asWritten_panics_iff`.) -/
 theorem qr_none_iff_wide {α : Type} [Add α] [Sub α] [Mul α] [Div α] [Neg α] [Zero α] [One α]
@@ -293,6 +468,19 @@ theorem qr_asWritten_panics_iff {α : Type} [Add α] [Sub α] [Mul α] [Div α] 
 example : qrAsWritten (⟨[⟨5⟩], 1, 1⟩ : Matrix Fp) = .panic .unwrap ∧
     qr (⟨[⟨5⟩], 1, 1⟩ : Matrix Fp) = some (⟨[⟨1⟩], 1, 1⟩, ⟨[⟨5⟩], 1, 1⟩) := by
   constructor <;> rfl
+
+/-- Non-vacuity of `qr_product` / `qr_upper` over ℝ: the 2×1 input `[3, 4]ᵀ` is factored. -/
+example : ∃ QR, qr (⟨[3, 4], 2, 1⟩ : Matrix ℝ) = some QR := by
+  cases h : qr (⟨[3, 4], 2, 1⟩ : Matrix ℝ) with
+  | some x => exact ⟨x, rfl⟩
+  | none => exact absurd ((qr_none_iff_wide _).mp h) (by decide)
+
+example : (⟨[⟨5⟩], 1, 1⟩ : Matrix Fp).Inv := by decide
+
+/-- the symmetric input of the Cholesky examples -/
+example : (toMat 2 2 (⟨[4, 2, 2, 5], 2, 2⟩ : Matrix ℝ)).transpose = toMat 2 2 ⟨[4, 2, 2, 5], 2, 2⟩ := by
+  ext i j
+  fin_cases i <;> fin_cases j <;> simp [toMat, Decomp.get, EasyMl.Matrix.getIndex]
 
 /-! ### shape rejection -/
 
